@@ -69,8 +69,7 @@ static str alpha_chars(int k)
 	case 3: return "abcdefghijklmnopqrstuvwxyzABCDEFGHIJKLMNOPQRSTUVWXYZ0123456789 \t\n\r.,;:-_/=";
 	case 4: {
 		str s;
-		for (int i = 1; i < 256; i++)
-			if (i != 0x0b && i != 0x0c) s += (char)i;  // \v and \f left out: "whitespace" is ambiguous for them
+		for (int i = 1; i < 256; i++) s += (char)i;   // \v and \f included: the library's whitespace is exactly { ' ', \t, \n, \r } (myisspace), they are text
 		return s;
 	}
 	default: return " \t\n\rxy\xc3\xa9";
@@ -747,6 +746,8 @@ static void func_ws(vf::Ctx& c, Counters& cnt, const str& t0)
 	if (r.below(2)) t = rnd(r, r.range(0, 5), " \t\n\r") + t;
 	if (r.below(2)) t += rnd(r, r.range(0, 5), " \t\n\r");
 	if (r.below(12) == 0) t = rnd(r, r.range(0, 30), " \t\n\r");  // whitespace only
+	// bytes next to the whitespace set that are not in it (\v, \f, 0x1f, 0x08, 0x0e, 0x7f, 0xa0) at the edges and inside
+	if (r.below(6) == 0) { static const char nearws[] = "\x0b\x0c\x1f\x08\x0e\x7f\xa0\x85"; int k = r.range(1, 3); for (int i = 0; i < k; i++) { char ch = nearws[r.below(8)]; int w = r.below(3); if (w == 0) t = str(1, ch) + t; else if (w == 1) t += ch; else t.insert(t.begin() + r.below((uint32_t)t.size() + 1), ch); } cnt.add("ws:near-whitespace bytes placed"); }
 	String s = exact(t);
 	c.desc("String" + show(t) + ".split()");
 	std::vector<str> want = m_splitws(t);
